@@ -151,8 +151,8 @@ int main(int argc, char** argv) {
           if (op == "between") { res = X.between(Y, HH[0].ref(j1), HH[1].ref(j2)); if (dotwin) twin = Xo.between(Yo); }
           else { res = X.compose(Y, HH[0].ref(j1), HH[1].ref(j2)); if (dotwin) twin = Xo.compose(Yo); }
           have_twin = true; }); });
-      } else if (op == "inverse" || op == "assign" || op == "log") {
-        nj = op == "assign" ? 0 : 1;
+      } else if (op == "inverse" || op == "assign" || op == "moveassign" || op == "log") {
+        nj = (op == "assign" || op == "moveassign") ? 0 : 1;
         withG(m, a, [&](const auto& X) { G Xo = X;
           if (op == "inverse") { res = X.inverse(HH[0].ref(j1)); if (dotwin) twin = Xo.inverse(); have_twin = true; }
           else if (op == "log") { tres = X.log(HH[0].ref(j1)); if (dotwin) ttwin = Xo.log(); isT = true; have_twin = true; }
@@ -163,7 +163,7 @@ int main(int argc, char** argv) {
           if (op == "lplus") { res = X.lplus(t, HH[0].ref(j1), HH[1].ref(j2)); if (dotwin) twin = Xo.lplus(to); }
           else { res = X.rplus(t, HH[0].ref(j1), HH[1].ref(j2)); if (dotwin) twin = Xo.rplus(to); }
           have_twin = true; }); });
-      } else if (op == "exp" || op == "tassign" || op == "tneg") {
+      } else if (op == "exp" || op == "tassign" || op == "tmoveassign" || op == "tneg") {
         nj = op == "exp" ? 1 : 0;
         withT(m, a, [&](const auto& t) { T to = t;
           if (op == "exp") { res = t.exp(HH[0].ref(j1)); if (dotwin) twin = to.exp(); have_twin = true; }
@@ -234,10 +234,18 @@ int main(int argc, char** argv) {
         else if (op == "normalize") { twin = res; have_twin = true; do_normalize(D); res = D; }
         else if (op == "setIdentity") { twin = res; have_twin = true; D.setIdentity(); res = D; }
         else if (op == "setRandom") { D.setRandom(); res = D; }
+        else if (op == "moveassign") {
+          // D = std::move(source), the source being an object of its own storage kind (a fresh view over the same slot
+          // for views, a copy for owning / const registers): exercises the move-assignment operators of every kind pair
+          if (a == "m0" || a == "m1") { Eigen::Map<G> src(m.gs(a == "m0" ? 0 : 1)); D = std::move(src); }
+          else { G src = res; D = std::move(src); }
+        }
         else D = res; });
     } else {
       withTMut(m, dst, [&](auto& D) {
-        if (op == "tsetZero") { ttwin = tres; have_twin = true; D.setZero(); tres = D; } else if (op == "tsetRandom") { D.setRandom(); tres = D; } else D = tres; });
+        if (op == "tsetZero") { ttwin = tres; have_twin = true; D.setZero(); tres = D; } else if (op == "tsetRandom") { D.setRandom(); tres = D; }
+        else if (op == "tmoveassign") { if (a == "v0") { Eigen::Map<T> src(m.ts(0)); D = std::move(src); } else { T src = tres; D = std::move(src); } }
+        else D = tres; });
     }
     o.begin("step"); o.raw("g", Info<G>::name()); o.str("sc", ScalarName<S>::n()); o.num("i", step); o.str("op", op); o.str("dst", dst); o.str("a", a); o.str("b", b); o.num("mask", mask);
     o.num("rid", std::atol(pl[6].c_str())); put_ints(o, "ids", ints(pl[7])); put_ints(o, "pg", ints(pl[8])); put_ints(o, "pt", ints(pl[9]));
